@@ -187,6 +187,23 @@ class C12(Prop):
                     yield {"kind": "src", "src": "[{% " + tag + " " + lit + " %}]{% " + tag + " " + lit + ", a: 1 %}",
                            "templates": quoted, "data": [{}]}
 
+        # pickles travel: a template pickled here is unpickled and rendered by another interpreter process with
+        # another hash seed, where its partials are parsed afresh (state keyed by hash() would not survive)
+        shared = {"p": "{% cycle 'a', 'b', 'c' %}{% increment n %}", "q": "{% cycle g: 1, 2 %}{% for x in xs offset: continue %}{{ x }}{% endfor %}"}
+        items = [
+            ["{% cycle 'a', 'b', 'c' %}{% include 'p' %}{% cycle 'a', 'b', 'c' %}|{% render 'p' %}", shared, {}],
+            ["{% cycle g: 1, 2 %}{% include 'q' %}{% cycle g: 1, 2 %}{% include 'q' %}", shared, {"xs": [1, 2, 3]}],
+            ["{% for x in xs limit: 1 %}{{ x }}{% endfor %}{% include 'q' %}{% for x in xs offset: continue %}{{ x }}{% endfor %}", shared, {"xs": [1, 2, 3]}],
+            ["{% increment n %}{% include 'p' %}{% increment n %}{{ n }}", shared, {}],
+            ["{% macro m a, b: 'B' %}[{{ a }}{{ b }}]{% endmacro %}{% call m 1 %}{% include 'p' %}{% call m 1, b: 2 %}", shared, {}],
+            ["{% assign k = 'a' %}{{ h[k] }}{{ h['b'] }}{{ h.c }}{% case k %}{% when 'b', 'a' %}w{% endcase %}", {}, {"h": {"a": 1, "b": 2, "c": 3}}],
+        ]
+        for t in corpus()[::9]:
+            if not t.get("invalid") and not t.get("templates"):
+                items.append([t["template"], {}, t.get("data") or {}])
+        for i in range(0, len(items), 40):
+            yield {"kind": "xproc", "items": items[i:i + 40]}
+
         # every boolean expression tree with up to three binary operators over distinct variables, with `not`
         # at up to one (quick) or two (thorough) of its nodes, written fully parenthesised: str() decides which
         # parentheses to keep, and dropping one that mattered regroups the reparsed expression
@@ -243,7 +260,68 @@ class C12(Prop):
             cur = nxt
         return None
 
+    def _check_xproc(self, case: Any) -> Result:
+        import base64
+        import json
+        import os
+        import subprocess
+        import tempfile
+
+        res = Result()
+        res.labels.append("cross-process-pickle")
+        payload = []
+        want = []
+        for src, templates, data in case["items"]:
+            env = ShopifyEnvironment(loader=DictLoader(dict(templates)))
+            try:
+                t0 = env.from_string(src)
+                blob = pickle.dumps(t0)
+            except Exception:  # noqa: BLE001 - parse errors and in-process pickling are the other families' business
+                continue
+            want.append((src, outcome(t0, data)))
+            payload.append({"blob": base64.b64encode(blob).decode("ascii"), "data": data})
+        if not payload:
+            return res
+        repo = os.environ.get("LV_REPO", "/repo")
+        script = (
+            "import sys, json, base64, pickle\n"
+            "from liquid2.exceptions import LiquidError\n"
+            "out = []\n"
+            "for it in json.load(open(sys.argv[1])):\n"
+            "    try:\n"
+            "        t = pickle.loads(base64.b64decode(it['blob']))\n"
+            "        out.append(['ok', t.render(**it['data'])])\n"
+            "    except LiquidError as err:\n"
+            "        out.append(['err', type(err).__name__])\n"
+            "    except Exception as err:\n"
+            "        out.append(['crash', type(err).__name__ + ': ' + str(err)[:200]])\n"
+            "json.dump(out, sys.stdout)\n"
+        )
+        fd, path = tempfile.mkstemp(prefix="lv-c12-", suffix=".json")
+        try:
+            with os.fdopen(fd, "w") as fh:
+                json.dump(payload, fh)
+            env_vars = dict(os.environ)
+            env_vars.update({"PYTHONHASHSEED": "4242", "PYTHONPATH": repo, "PYTHONDONTWRITEBYTECODE": "1"})
+            proc = subprocess.run([sys.executable, "-c", script, path], capture_output=True, text=True, env=env_vars,
+                                  timeout=300, check=False)
+        finally:
+            os.unlink(path)
+        if proc.returncode != 0:
+            raise RuntimeError("cross-process helper failed: " + proc.stderr[-500:])
+        got = json.loads(proc.stdout)
+        res.evaluations = 2 * len(want)
+        res.nontrivial = True
+        for (src, a), b in zip(want, got):
+            if list(a) != list(b):
+                res.fail("pickle", "pickle-outcome-other-process",
+                         f"src={src!r} orig={a!r} unpickled in another interpreter (other hash seed)={tuple(b)!r}")
+                break
+        return res
+
     def check(self, case: Any, disabled: frozenset[str] = frozenset()) -> Result:
+        if case["kind"] == "xproc":
+            return self._check_xproc(case)
         res = Result()
         datas = case["data"]
         if case["kind"] == "prog":
@@ -322,6 +400,8 @@ class C12(Prop):
         return res
 
     def sample(self, case: Any) -> Any:
+        if case["kind"] == "xproc":
+            return {"kind": "xproc", "n": len(case["items"]), "first": case["items"][0][0][:200]}
         if case["kind"] == "prog":
             return {"src": to_source(case["prog"]["main"], case["layout"])[:300]}
         return {"src": case["src"][:300]}
